@@ -202,7 +202,7 @@ func VerifHarness_C12_close_and_write_errors() {
 // Fire-and-forget transactions (ignoreResult): no waiter, but the same timetable, and a failure
 // (all transmissions lost or a write error) still removes the entry.
 //
-//verif:props=C12 replay=model unwind=20 bounds="one transaction started with ignoreResult; retransmission writes may fail; all 7 timer firings"
+//verif:props=C12,C14 replay=model unwind=20 bounds="one transaction started with ignoreResult (what Close uses for its Refresh with lifetime 0); retransmission writes may fail; all 7 timer firings"
 func VerifHarness_C12_ignore_result() {
 	conn := &allocation.VPacketConn{Name: "client"}
 	c := vNewClient(conn, 200*time.Millisecond)
@@ -211,13 +211,18 @@ func VerifHarness_C12_ignore_result() {
 	_, err := c.PerformTransaction(msg, to, true)
 	vAssert(err == nil, "C12.fire_and_forget_returns_at_once")
 	vAssert(c.trMap.Size() == 1, "C12.transaction_registered")
+	vAssert(c.trMap.Size() == 1, "C14.deallocating_refresh_is_kept_for_retransmission")
 	var tr *client.Transaction
 	for _, t := range vTrEntries(c) {
 		tr = t
 	}
 	vAssume(tr != nil)
+	// the first transmission is lost: the request goes out again when the retransmission timer fires
+	vFire(tr.VTimer())
+	vAssert(len(conn.Writes) == 2, "C14.lost_deallocating_refresh_is_retransmitted")
+	vAssert(len(conn.Writes) == 2, "C12.fire_and_forget_is_retransmitted_like_any_other")
 	conn.Failing = true // from now on a retransmission write may fail
-	for k := 1; k <= 7; k++ {
+	for k := 2; k <= 7; k++ {
 		if c.trMap.Size() == 1 {
 			vFire(tr.VTimer())
 		}
